@@ -3,10 +3,10 @@ from contracts import droplets as dr, lemmas, spherical as sp
 from pyvc.bounded import Bounded, ContractSampling
 
 LEVEL = "proof"
-LEVEL_TEXT = 'Both merge_data closures and DropletBase.merge are verified for all real radii/positions/widths with positive total volume, dims 1-3 and every aliasing pattern of (drop1, drop2, out): volume additivity, volume-weighted centre, mean width, frame conditions and in-place/out-of-place object identity; operand-order independence, uniqueness and grouping independence are z3 lemmas over the contract. The compiled path is sampled against the Python path (bounded stand-in).'
+LEVEL_TEXT = 'The interface-width accessors the width clause rests on are under contract (a width of exactly 0 is a width, None / NaN is `unset`). Both merge_data closures and DropletBase.merge are verified for all real radii/positions/widths with positive total volume, dims 1-3 and every aliasing pattern of (drop1, drop2, out): volume additivity, volume-weighted centre, mean width, frame conditions and in-place/out-of-place object identity; operand-order independence, uniqueness and grouping independence are z3 lemmas over the contract. The compiled path is sampled against the Python path (bounded stand-in).'
 LEVEL_NOTE = 'A-FP; A-NB (sampled); the nd conversion closures are used through their separately verified contracts; class-creation hook binding _merge_data is checked structurally; induction principle over merge trees is trusted; pyvc engine semantics'
 CONTRACTS = [c.ident for c in (dr.MergeSpherical(), dr.MergeDiffuse(), dr.Merge(), sp.RadiusFromVolumeNd(),
-                               sp.VolumeFromRadiusNd(), sp.NdFactoryRadius(), sp.NdFactoryVolume(), dr.SetState())]
+                               sp.VolumeFromRadiusNd(), sp.NdFactoryRadius(), sp.NdFactoryVolume(), dr.SetState(), dr.WidthSetter(), dr.WidthGetter())]
 LEMMAS = ["merge-spec-algebra", "V_d-and-S_d-injective-on-nonnegative-radii"]
 
 
@@ -59,6 +59,6 @@ class JitMerge(Bounded):
         return dict(evaluations=ev, distinct=len(distinct), violations=list(uniq.values()))
 
 
-BOUNDED = [ContractSampling("merge-contracts-sampled", CONTRACTS[:3] + [dr.SetState().ident],
+BOUNDED = [ContractSampling("merge-contracts-sampled", CONTRACTS[:3] + [dr.SetState().ident, dr.WidthSetter().ident],
                             "each case (dimension x aliasing / class x inplace) on 8 (quick) / 120 (thorough) seeded operand sets"),
            JitMerge()]
